@@ -32,8 +32,9 @@ Definition severity_of (c : checker) (s : settings) (v : value) (inconclusive : 
   match c with
   | CNullPointer =>
       if is_enabled s v inconclusive then
-        Some (if v_cond v then SWarning else if v_defarg v then SWarning
-              else if is_known v then SError else SWarning)
+        if v_cond v then Some SWarning else if v_defarg v then Some SWarning
+        else if is_known v then Some SError
+        else if s_warning s then Some SWarning else None   (* fix c8e124b: a warning is not reported when warnings are off *)
       else None
   | CZeroDiv | CShift | COverflow =>
       if is_enabled s v false then Some (if error_severity v then SError else SWarning) else None
